@@ -248,41 +248,184 @@ Definition rcpt_policy_gen (free_before : bool) (uc dc gc : list bytes) (frs : l
 Definition rcpt_policy := rcpt_policy_gen FREE_BEFORE_SETTINGS.
 
 (* ------------------------------------------------------------------------------------------------ *)
-(** * One correspondence case: directory tree + filter outcomes + probe key *)
+(** * Stage 2: four real filters (qsmtpd/filters/boolean.c, usersize.c, smtpbugs.c, spf.c)
 
-Inductive case_result :=
-| CGlobalErr                                   (* control/filterconf does not parse *)
-| CCtrlErr                                     (* user or domain filterconf does not parse: err_control2, EDONE *)
-| CBadCase
-| CDone (res : rcpt_result) (trace : list nat) (filtermsg : bool) (p1 p2 : Z * Z * cerrno).
+    Each returns (result, the reply it has sent itself).  Modelled for the sessions the harness sets up: no
+    spfignore / rspf / spfstrict files, empty reverse lookup, no SPF explanation, writes to the network succeed. *)
 
-Fixpoint decode_outcomes (l : bytes) : option (list fres) :=
+Record session := mk_session {
+  s_spf : N;            (* xmitstat.spf *)
+  s_ssl : bool;         (* xmitstat.ssl != NULL *)
+  s_auth : bool;        (* xmitstat.authname.len != 0 *)
+  s_esmtp : bool;       (* xmitstat.esmtp *)
+  s_apos : bool;        (* an apostrophe in the local part of MAIL FROM *)
+  s_bounce : bool;      (* xmitstat.mailfrom.len == 0 *)
+  s_spaces : N;         (* blanks between "RCPT TO:" and '<'  (xmitstat.spacebug = this != 0) *)
+  s_bytes : Z           (* xmitstat.thisbytes *)
+}.
+
+Definition default_session : session := mk_session 0 false false false false false 0 0.
+
+Definition passed : fres * option bytes := (FPassed, None).
+
+Definition cb_boolean (s : session) (uc dc gc : list bytes) : fres * option bytes :=
+  if (0 <? setting_value (getsettingglobal uc dc gc KEY_WHITELISTAUTH))%Z && s_auth s then (FWhite, None)
+  else if negb (s_ssl s) && (0 <? setting_value (getsetting uc dc gc KEY_FORCESTARTTLS))%Z then (FDeniedMsg, Some REPLY_FORCESTARTTLS)
+  else if s_bounce s && (0 <? setting_value (getsetting uc dc gc KEY_NOBOUNCE))%Z then (FDeniedMsg, Some REPLY_NOBOUNCE)
+  else if (0 <? setting_value (getsetting uc dc gc KEY_NOAPOS))%Z && negb (s_bounce s) && s_apos s then (FDeniedUnspec, None)
+  else passed.
+
+Definition cb_usersize (s : session) (uc dc gc : list bytes) : fres * option bytes :=
+  let usize := setting_value (getsetting uc dc gc KEY_USERSIZE) in
+  if (usize <=? 0)%Z then passed
+  else if (s_bytes s <=? usize)%Z then passed
+  else (FDeniedMsg, Some REPLY_USERSIZE).
+
+(** long -> int conversion of "int filter = getsettingglobal(...)" *)
+Definition to_int (z : Z) : Z :=
+  let m := (z mod 4294967296)%Z in if (m <? 2147483648)%Z then m else (m - 4294967296)%Z.
+
+Definition cb_smtpbugs (s : session) (uc dc gc : list bytes) : fres * option bytes :=
+  if N.eqb (s_spaces s) 0 then passed else
+  let filter := to_int (setting_value (getsettingglobal uc dc gc KEY_SMTP_SPACE_BUG)) in
+  if (filter <=? 0)%Z then passed else
+  let reject := (FDeniedMsg, Some REPLY_SMTPBUGS) in
+  if Z.eqb filter SPB_PERMIT_TLS then (if s_ssl s then passed else if s_auth s then passed else reject)
+  else if Z.eqb filter SPB_PERMIT_AUTH then (if s_auth s then passed else reject)
+  else if Z.eqb filter SPB_PERMIT_ESMTP then (if s_esmtp s then passed else reject)
+  else if Z.eqb filter SPB_REJECT_ALL then reject
+  else passed.
+
+(** how the [switch (p)] of cb_spf ends *)
+Inductive spf_verdict := SBreak | SStrict | SBad | STemp.
+
+Definition spf_case1 (x : N) : spf_verdict := if N.eqb x SPF_TEMPERROR then STemp else SStrict.
+Definition spf_case2 (x : N) : spf_verdict :=
+  if N.eqb x SPF_DNS_HARD_ERROR then SStrict else if N.eqb x SPF_FAIL || N.eqb x SPF_PERMERROR then SBreak else spf_case1 x.
+Definition spf_case3 (x : N) : spf_verdict :=
+  if N.eqb x SPF_SOFTFAIL then SStrict else if N.eqb x SPF_DNS_HARD_ERROR then SBad else spf_case2 x.
+Definition spf_case4 (x : N) : spf_verdict :=
+  if N.eqb x SPF_NEUTRAL then SStrict else if N.eqb x SPF_SOFTFAIL then SBreak else spf_case3 x.
+Definition spf_case5 (x : N) : spf_verdict := if N.eqb x SPF_NEUTRAL then SBreak else spf_case4 x.
+Definition spf_case6 (x : N) : spf_verdict := if N.eqb x SPF_NONE then SBreak else spf_case5 x.
+
+Definition spf_switch (p : Z) (x : N) : spf_verdict :=
+  if Z.eqb p 1 then spf_case1 x else if Z.eqb p 2 then spf_case2 x else if Z.eqb p 3 then spf_case3 x
+  else if Z.eqb p 4 then spf_case4 x else if Z.eqb p 5 then spf_case5 x else spf_case6 x.
+
+Definition cb_spf (s : session) (uc dc gc : list bytes) : fres * option bytes :=
+  let x := s_spf s in
+  if N.eqb x SPF_PASS || N.eqb x SPF_IGNORE then passed else
+  let p := setting_value (getsettingglobal uc dc gc KEY_SPFPOLICY) in
+  if (p <=? 0)%Z then passed else
+  match spf_switch p x with
+  | SBreak => (FDeniedMsg, Some REPLY_SPF_DENY)
+  | SStrict => passed                                     (* userconf_find_domain(ds, "spfstrict", ...) == CONFIG_NONE *)
+  | SBad => (FDeniedMsg, Some REPLY_SPF_BAD)
+  | STemp =>
+      if (setting_value (getsetting uc dc gc KEY_SPF_FAIL_HARD) <=? 0)%Z
+      then (match fres_of_code SPF_TEMP_RETURNS with Some r => r | None => FDeniedMsg end, Some REPLY_SPF_TEMP)
+      else (FDeniedTemp, None)
+  end.
+
+(* ------------------------------------------------------------------------------------------------ *)
+(** * One correspondence case: directory tree + filter slots + probe key + session *)
+
+(** what the case says about one filter: a fixed outcome (table-driven stand-in) or "call the real one" *)
+Inductive slot := Standin (r : fres) | RealFilter.
+
+Definition decode_slot (b : N) : option slot :=
+  if N.eqb b 128 then Some RealFilter
+  else match fres_of_code (Z.of_N b - 1)%Z with Some r => Some (Standin r) | None => None end.
+
+Fixpoint decode_outcomes (l : bytes) : option (list slot) :=
   match l with
   | [] => Some []
-  | b :: r => match fres_of_code (Z.of_N b - 1)%Z, decode_outcomes r with
+  | b :: r => match decode_slot b, decode_outcomes r with
               | Some f, Some fs => Some (f :: fs)
               | _, _ => None
               end
   end.
 
-(** [outcomes]: indexed by canonical filter id, byte = enum value + 1 *)
+(** canonical (alphabetical) ids of the filters the harness can run for real; a convention of the harness *)
+Definition ID_BOOLEAN : nat := 2.
+Definition ID_SMTPBUGS : nat := 11.
+Definition ID_SPF : nat := 13.
+Definition ID_USERSIZE : nat := 14.
+
+(** "554 5.7.1": what the stand-in sends before it returns FILTER_DENIED_WITH_MESSAGE *)
+Definition STANDIN_MSG : bytes := [53; 53; 52; 32; 53; 46; 55; 46; 49]%N.
+
+Definition run_slot (id : nat) (sl : slot) (s : session) (uc dc gc : list bytes) : option (fres * option bytes) :=
+  match sl with
+  | Standin r => Some (r, if fres_eqb r FDeniedMsg then Some STANDIN_MSG else None)
+  | RealFilter =>
+      if Nat.eqb id ID_BOOLEAN then Some (cb_boolean s uc dc gc)
+      else if Nat.eqb id ID_SMTPBUGS then Some (cb_smtpbugs s uc dc gc)
+      else if Nat.eqb id ID_SPF then Some (cb_spf s uc dc gc)
+      else if Nat.eqb id ID_USERSIZE then Some (cb_usersize s uc dc gc)
+      else None
+  end.
+
+(** session field: spf, flags, blanks, size (2 bytes, big endian); absent = all zero *)
+Definition decode_session (l : bytes) : option session :=
+  match l with
+  | [] => Some default_session
+  | [a; b; c; d; e] =>
+      if N.leb c 8 then
+        Some (mk_session (N.land a 15) (N.testbit b 0) (N.testbit b 1) (N.testbit b 2) (N.testbit b 3) (N.testbit b 4) c
+                         (Z.of_N (d * 256 + e)))
+      else None
+  | _ => None
+  end.
+
+Inductive case_result :=
+| CGlobalErr                                   (* control/filterconf does not parse *)
+| CCtrlErr                                     (* user or domain filterconf does not parse: err_control2, EDONE *)
+| CBadCase
+| CDone (res : rcpt_result) (trace : list nat) (filtermsgs : list bytes) (p1 p2 : Z * Z * cerrno).
+
+Fixpoint sequence {A} (l : list (option A)) : option (list A) :=
+  match l with
+  | [] => Some []
+  | Some a :: r => match sequence r with Some rs => Some (a :: rs) | None => None end
+  | None :: _ => None
+  end.
+
+Fixpoint collect_msgs (l : list (fres * option bytes)) : list bytes :=
+  match l with
+  | [] => []
+  | (_, Some m) :: r => m :: collect_msgs r
+  | (_, None) :: r => collect_msgs r
+  end.
+
+(** the results of all sixteen filters (indexed by canonical id) for this case *)
+Definition all_results (slots : list slot) (s : session) (uc dc gc : list bytes) : option (list (fres * option bytes)) :=
+  sequence (map (fun id => run_slot id (nth id slots (Standin FPassed)) s uc dc gc) (seq 0 NFILTERS)).
+
+(** [outcomes]: indexed by canonical filter id *)
 Definition rcpt_case (outcomes : bytes) (umode : N) (ufile : bytes) (dmode : N) (dfile : bytes)
-                     (gmode : N) (gfile : bytes) (key : bytes) : case_result :=
-  match decode_outcomes outcomes with
-  | None => CBadCase
-  | Some outc =>
-      if negb (Nat.eqb (length outc) NFILTERS) then CBadCase else
+                     (gmode : N) (gfile : bytes) (key : bytes) (sess : bytes) : case_result :=
+  match decode_outcomes outcomes, decode_session sess with
+  | Some slots, Some s =>
+      if negb (Nat.eqb (length slots) NFILTERS) then CBadCase else
       match load_level gmode gfile with
       | None => CGlobalErr
       | Some gc =>
           match load_configs umode ufile dmode dfile with
           | None => CCtrlErr
           | Some (uc, dc) =>
-              let frs := map (fun id => nth id outc FPassed) RCPT_CBS in
-              let res := rcpt_policy uc dc gc frs in
-              let trace := firstn (rr_called res) RCPT_CBS in
-              let fmsg := existsb (fun r => fres_eqb r FDeniedMsg) (firstn (rr_called res) frs) in
-              CDone res trace fmsg (getsetting uc dc gc key) (getsettingglobal uc dc gc key)
+              match all_results slots s uc dc gc with
+              | None => CBadCase
+              | Some results =>
+                  let inorder := map (fun id => nth id results passed) RCPT_CBS in
+                  let frs := map fst inorder in
+                  let res := rcpt_policy uc dc gc frs in
+                  let trace := firstn (rr_called res) RCPT_CBS in
+                  CDone res trace (collect_msgs (firstn (rr_called res) inorder))
+                        (getsetting uc dc gc key) (getsettingglobal uc dc gc key)
+              end
           end
       end
+  | _, _ => CBadCase
   end.
